@@ -3,6 +3,7 @@ Driver ops of the deepcopy / clone family (C05).
   op <id> deepcopy <T> <src> <dstPrior>   → model=<dst after, canonical>;eq=<b>;shape=<b>;alias=<b>;src=1
   op <id> clone <T> <src>                 → same for the returned value
   (deepcopyx = deepcopy on arguments outside the property's precondition)
+  op <id> deepcopyk / clonek …            → model=unmodelled (types with pointer-keyed maps)
 eq = Spec.structEq (Go's equality, what reflect.DeepEqual says in the harness), shape = Spec.shapeEq (same
 nil-ness, lengths and bits; rt.ShapeEqual in the harness).
 -/
@@ -52,6 +53,8 @@ def run (s : DState) (name : String) (args : List SExp) : Option String :=
       else if !heapConsistent (objs src ++ objs dst) then "ill-formed-heap"
       else answer env T src (DeepCopy.top env T src dst (max (maxAddr src) (maxAddr dst) + 1))
     | _, _, _ => "bad-op"
+  -- maps with pointer keys are outside the models (typing demands pointer-free keys): judged on the Go side alone
+  | "deepcopyk", _ | "clonek", _ => some "model=unmodelled"
   | "clone", [t, x] =>
     some <| match lookupTy s t, parseVal x with
     | some T, some src =>
